@@ -1,6 +1,7 @@
 import Aldy.Lemmas.Enumerate
 import Aldy.Lemmas.Gadgets
 import Aldy.Generated.Constants
+import Aldy.Model.Shape
 import Mathlib.Tactic.NormNum
 
 /-!
@@ -156,5 +157,36 @@ example : Run exM 0 (1/100000) none none [] 0 [⟨[0], 0⟩, ⟨[1], 0⟩] true 
 example : validRun exM 0 (1/100000) (1/1000000) none [⟨[0], 0⟩, ⟨[1], 0⟩] = none := by decide +kernel
 example : (validRun exM 0 (1/100000) (1/1000000) none [⟨[0], 0⟩]).isSome = true := by decide +kernel
 end Example
+
+
+/-! ### General integers are not part of an assignment -/
+section ShapePoints
+variable [DecidableEq V]
+
+theorem sublistsOf_sublist (xs l : List V) (h : l ∈ sublistsOf xs) : l.Sublist xs := by
+  induction xs generalizing l with
+  | nil =>
+    simp only [sublistsOf, List.mem_singleton] at h
+    subst h; exact List.Sublist.refl _
+  | cons x xs ih =>
+    simp only [sublistsOf, List.mem_append, List.mem_map] at h
+    rcases h with h | ⟨l', hl', rfl⟩
+    · exact (ih l h).cons x
+    · exact (ih l' hl').cons₂ x
+
+/-- **points_act_sublist** the active set of every point of a model with general integers
+(`addVar(vtype="I")`) consists of binaries only, so that the exclusion cut of the enumeration
+never constrains an integer: such a variable is not "a binary that is 1" whatever its value. -/
+theorem points_act_sublist (s : Shape V) (p : Pt V) (h : p ∈ s.points) : p.act.Sublist s.bins := by
+  unfold Shape.points at h
+  obtain ⟨act, hact, hp⟩ := List.mem_flatMap.mp h
+  obtain ⟨iv, _, hiv⟩ := List.mem_filterMap.mp hp
+  have hsub := sublistsOf_sublist s.bins act hact
+  simp only at hiv
+  split at hiv
+  · cases hiv; exact hsub
+  · cases hiv
+
+end ShapePoints
 
 end Aldy
